@@ -99,7 +99,7 @@ def _binary_binned_auroc_update_input_check(
             f"`input` is expected to be two dimensions or less, but got {len(input.shape)}D tensor."
         )
     if num_tasks == 1:
-        if len(input.shape) > 1:
+        if len(input.shape) != 1:
             raise ValueError(
                 f"`num_tasks = 1`, `input` is expected to be one-dimensional tensor, but got shape {input.shape}."
             )
